@@ -7,6 +7,8 @@ use num_traits::Zero;
 
 pub mod ark {
     pub use decaf377::{Element, Encoding, EncodingError, Fp, Fq, Fr, ZETA};
+    /// the pairing engine the crate exports (Groth16 over its own fields)
+    pub type Fq2Engine = decaf377::Bls12_377;
 }
 pub mod min {
     pub use decaf377_min::{Element, Encoding, EncodingError, Fp, Fq, Fr, ZETA};
